@@ -29,6 +29,10 @@ type c08Pub struct {
 	mu    sync.Mutex
 	ann   []cid.Cid // announced heads, in order
 	failOn func()
+	failSlow string // a head block whose first request is held for a moment and then answered 500
+	slowArrived chan struct{}
+	slowOnce    sync.Once
+	cancelAtHook atomic.Pointer[context.CancelFunc]
 }
 
 type c08Cfg struct {
@@ -119,7 +123,7 @@ func c08One(c *vf.Ctx, sub string, i int, r *rand.Rand, k c08Cfg, ids []Ident) {
 	pubs := make([]*c08Pub, k.K)
 	byID := map[peer.ID]*c08Pub{}
 	for x := range pubs {
-		p := &c08Pub{id: ids[(i*4+x)%len(ids)], st: NewStore()}
+		p := &c08Pub{id: ids[(i*4+x)%len(ids)], st: NewStore(), slowArrived: make(chan struct{})}
 		for byID[p.id.ID] != nil {
 			p.id = ids[r.Intn(len(ids))]
 		}
@@ -144,6 +148,14 @@ func c08One(c *vf.Ctx, sub string, i int, r *rand.Rand, k c08Cfg, ids []Ident) {
 		p.front.Plan = func(ev ReqEvent) *Fault {
 			if ev.Rsrc == "head" || (stall == 0 && k.Fail == 0) {
 				return nil
+			}
+			p.mu.Lock()
+			slow := p.failSlow != "" && ev.Rsrc == p.failSlow && ev.Occur == 0
+			p.mu.Unlock()
+			if slow {
+				return &Fault{Status: 500, Gate: closedAfter(2500 * time.Microsecond), Label: "injected-500-slow", OnArrive: func() {
+					p.slowOnce.Do(func() { close(p.slowArrived) })
+				}}
 			}
 			smu.Lock()
 			fail := fail
@@ -176,24 +188,45 @@ func c08One(c *vf.Ctx, sub string, i int, r *rand.Rand, k c08Cfg, ids []Ident) {
 		hmu.Lock()
 		hooks = append(hooks, c08Hook{T: c.Tick(), Peer: p, Cid: cd})
 		hmu.Unlock()
+		if bp := byID[p]; bp != nil {
+			if fn := bp.cancelAtHook.Swap(nil); fn != nil {
+				(*fn)()
+				c.Inc("explicit_syncs_cancelled_from_a_hook_call")
+				time.Sleep(600 * time.Microsecond)
+			}
+		}
+		if k.Timeouts {
+			// the application's hook takes its time: the context of an explicit sync expires while the blocks of
+			// that sync are still being reported, and the sync is over only when the last of them has been
+			if b := cd.Bytes(); b[len(b)-1]%3 == 0 {
+				time.Sleep(time.Duration(200+int(b[len(b)-2])*3) * time.Microsecond)
+				c.Inc("slow_hook_calls_in_runs_with_expiring_contexts")
+			}
+		}
 	}
+	var pollerG atomic.Int64
 	opts := []dagsync.Option{dagsync.RecvAnnounce(""), dagsync.BlockHook(hook)}
 	if k.LastKnown {
 		// a restarted indexer: the store already holds the chain, the latest sync comes from a callback
 		// into the application (which takes its time)
 		lkr := rand.New(rand.NewSource(r.Int63()))
 		var lkmu sync.Mutex
+		baseOf := map[peer.ID]cid.Cid{}
 		for _, p := range pubs {
 			raw, _ := p.st.Raw(p.chain.Cids[0])
 			dst.PutRaw(p.chain.Cids[0], raw)
+			baseOf[p.id.ID] = p.chain.Cids[0]
 		}
 		opts = append(opts, dagsync.WithLastKnownSync(func(pid peer.ID) (cid.Cid, bool) {
 			lkmu.Lock()
 			d := time.Duration(lkr.Intn(3000)) * time.Microsecond
 			lkmu.Unlock()
+			if int64(goroutineID()) == pollerG.Load() {
+				d += 6 * time.Millisecond // the application's own question is answered slowly: syncs complete meanwhile
+			}
 			time.Sleep(d)
-			if p := byID[pid]; p != nil {
-				return p.chain.Cids[0], true
+			if b, ok := baseOf[pid]; ok {
+				return b, true
 			}
 			return cid.Undef, false
 		}))
@@ -314,6 +347,40 @@ func c08One(c *vf.Ctx, sub string, i int, r *rand.Rand, k c08Cfg, ids []Ident) {
 				}
 				time.Sleep(time.Duration(rr.Intn(4000)) * time.Microsecond)
 			}
+			if k.Fail > 0 && !k.Explicit {
+				// the run ends with an announcement whose sync fails slowly and a newer announcement that arrives
+				// during it: the newer one is the last announcement and must be acted on
+				for step := 0; step < 2; step++ {
+					p.mu.Lock()
+					if err := ExtendChain(rr, p.st, p.chain, 1, p.id.ID); err != nil {
+						p.mu.Unlock()
+						return
+					}
+					h := p.chain.Head()
+					p.front.Pub.SetRoot(h)
+					p.ann = append(p.ann, h)
+					if step == 0 {
+						p.failSlow = h.String()
+					}
+					p.mu.Unlock()
+					tl.mark("client.announce.call", p.id.ID, h)
+					err := s.Announce(context.Background(), h, p.front.AddrInfo())
+					tl.mark("client.announce.ret", p.id.ID, h)
+					if err == nil {
+						amu.Lock()
+						announced++
+						amu.Unlock()
+					}
+					if step == 0 {
+						// (the newer announcement is made once the failing sync is under way)
+						select {
+						case <-p.slowArrived:
+						case <-time.After(2 * time.Second):
+						}
+					}
+				}
+				c.Inc("runs_ending_with_a_newer_announcement_during_a_failing_sync")
+			}
 		}(p)
 		if k.Explicit {
 			wg.Add(1)
@@ -323,16 +390,29 @@ func c08One(c *vf.Ctx, sub string, i int, r *rand.Rand, k c08Cfg, ids []Ident) {
 				for e := 0; e < 2+rr2.Intn(3); e++ {
 					time.Sleep(time.Duration(rr2.Intn(5000)) * time.Microsecond)
 					ctx, stop := context.Background(), func() {}
-					if k.Timeouts && rr2.Intn(2) == 0 {
+					mode := 2
+					if k.Timeouts {
+						mode = rr2.Intn(3)
+					}
+					switch mode {
+					case 0:
 						ctx, stop = context.WithTimeout(context.Background(), time.Duration(50+rr2.Intn(3000))*time.Microsecond)
 						amu.Lock()
 						explicitWithDeadline++
 						amu.Unlock()
+					case 1:
+						// the caller gives up while the blocks of a sync of this publisher are being reported (the
+						// next hook call for the publisher cancels the context, and then takes its time)
+						var cancel context.CancelFunc
+						ctx, cancel = context.WithCancel(context.Background())
+						stop = cancel
+						p.cancelAtHook.Store(&cancel)
 					}
 					tl.mark("client.explicit.call", p.id.ID, cid.Undef)
 					_, _ = s.SyncAdChain(ctx, p.front.AddrInfo())
 					tl.mark("client.explicit.ret", p.id.ID, cid.Undef)
 					stop()
+					p.cancelAtHook.Store(nil)
 				}
 			}(p)
 			// entries syncs of the same publisher (they share the per-publisher lock and hook slot with ad syncs);
@@ -381,6 +461,29 @@ func c08One(c *vf.Ctx, sub string, i int, r *rand.Rand, k c08Cfg, ids []Ident) {
 	}
 	stopRemove := make(chan struct{})
 	var rmWG sync.WaitGroup
+	if k.LastKnown {
+		// the application asks for the latest sync of its publishers while they are being synced (each first
+		// question goes to its own last-known callback, which takes its time)
+		rmWG.Add(1)
+		go func() {
+			defer rmWG.Done()
+			pollerG.Store(int64(goroutineID()))
+			n := 0
+			for {
+				select {
+				case <-stopRemove:
+					c.Add("get_latest_sync_calls_during_syncs", int64(n))
+					return
+				default:
+				}
+				for _, p := range pubs {
+					_ = s.GetLatestSync(p.id.ID)
+					n++
+				}
+				time.Sleep(50 * time.Microsecond)
+			}
+		}()
+	}
 	if k.Remove {
 		rmWG.Add(1)
 		rr4 := rand.New(rand.NewSource(r.Int63()))
@@ -688,7 +791,8 @@ func c08One(c *vf.Ctx, sub string, i int, r *rand.Rand, k c08Cfg, ids []Ident) {
 			errSeen := false
 			emu.Lock()
 			for _, ev := range events {
-				if ev.PeerID == p.id.ID && ev.Err != nil {
+				// (the error notification of an announcement's sync names the announced head)
+				if ev.PeerID == p.id.ID && ev.Err != nil && ev.Cid.Equals(lastAnn) {
 					errSeen = true
 				}
 			}
